@@ -54,3 +54,42 @@ prop("C11", level="proof",
      level_note=_RULE_NOTE + " The glob->regex translation itself is verified at string level under C08.",
      explanation="Regex/batch specifications equal their expansions: lemmas over proved contracts.",
      roots=["Rule.assert_applies", "ModuleNameConverter.convert"], bounded=[_b("rules", "bounded_expansion")], trusted_base=_TB)
+
+prop("C03", level="proof",
+     level_text="Unbounded proof at the level of the reported PAIRS: the three searches return exactly the property's violating sets (both inclusions; in particular every "
+                "reported pair has its subject-side endpoint inside the subject's own set), the detector buckets are exactly the images of those sets in user order. "
+                "The message TEXT (lines <-> records) is covered by a bounded stand-in that parses real messages and compares them with the reference violating set.",
+     level_note=_RULE_NOTE + " Bounded (not proved): rendering of records into message lines (message_generator.py).",
+     explanation="Search/detector postconditions are the violating sets; message text compared natively.",
+     roots=["Rule.assert_applies", "RuleViolationBaseDetector.get_rule_violation"], bounded=[_b("rules", "bounded_reports")], trusted_base=_TB)
+prop("C13", level="proof",
+     level_text="Unbounded proof for module rules: Rule.assert_applies raises ImproperlyConfigured / RuleInconsistency / ImpossibleMatch / NetworkXError exactly in the "
+                "incomplete, contradictory, unmatched-regex and unknown-name cases (exact raises-iff contracts down to the graph searches), so none of them yields a verdict; "
+                "every builder method is under contract, hence the claim holds after every finite call sequence. Layer rules, diagram rules and entry-point options: "
+                "bounded stand-ins against specification automata.",
+     level_note=_RULE_NOTE + " Bounded (not proved): call chains of LayerRule / DiagramRule / get_evaluable_architecture option validation.",
+     explanation="No verdict from undefined or incomplete specifications: exact exceptional postconditions + builder contracts.",
+     roots=["Rule.assert_applies", "C13_unknown_name_never_a_verdict", "C13_outcomes_exclusive", "C13_should_not_with_other_verb_is_contradictory"],
+     bounded=[_b("builders", "bounded_rule_chains"), _b("builders", "bounded_unknown_names")], trusted_base=_TB)
+prop("C14", level="proof",
+     level_text="Functions on the verdict path are verified with module names as an UNINTERPRETED sort (they can only compare names for equality, so results are invariant under "
+                "every injective renaming by construction); the flagged sites that inspect names character-wise are verified in the string view against dotted-boundary "
+                "contracts. Renaming invariance of verdicts and messages is additionally exercised natively under adversarial component renamings (bounded).",
+     level_note=_RULE_NOTE + " Bounded (not proved): flagged sites not yet under a string-view contract (layer lookup, plot labels, node flattening) are covered by the native renaming check only.",
+     explanation="Opacity of names + dotted-boundary contracts at flagged sites.",
+     roots=["Rule.assert_applies", "Rule._get_modules_to_check_without_parent_and_submodule_combinations"],
+     bounded=[_b("invariance", "bounded_renaming")], trusted_base=_TB)
+prop("C15", level="proof",
+     level_text="Frame conditions proved: no function on the evaluation path modifies the evaluable (frame obligations on every contract), Rule.assert_applies changes nothing "
+                "but the alias normalisation of its own configuration, and that normalisation preserves the outcome (lemma C15_reapplication_same_outcome). All postconditions "
+                "are functions of the inputs as SETS and are proved for arbitrary iteration orders, so list order / enumeration order / hash seed cannot matter. "
+                "Native bounded checks re-apply rule objects, permute arguments, vary hash seeds and directory enumeration order.",
+     level_note=_RULE_NOTE + " Bounded (not proved): layer / diagram rule evaluation, scanning (Parser) order independence, interpreter hash seeds.",
+     explanation="Purity and order independence: frames + set-level postconditions.",
+     roots=["Rule.assert_applies", "C15_reapplication_same_outcome"], bounded=[_b("invariance", "bounded_purity")], trusted_base=_TB)
+prop("C16", level="exploration",
+     level_text="Bounded exploration (contracts for LayeredArchitecture / LayerRule are not discharged yet): every builder call sequence up to the stated length is run on the real "
+                "classes and compared, call by call, with an independent specification automaton (accept/reject at the offending call, exact listing of accepted definitions).",
+     level_note="Bounded only; nothing proved. Reference automaton written from the property text.",
+     technique="bounded stand-in: exhaustive short call sequences on the real builders against a specification automaton (contract-based proof not yet available for these classes)",
+     explanation="Layer definition well-formedness: exhaustive short sequences.", roots=[], bounded=[_b("builders", "bounded_layer_definitions")], trusted_base=_TB)
